@@ -23,7 +23,7 @@ class LeafErr(Exception):
 
 def rp(x):
     t = type(x)
-    if t is V:
+    if t is V or t is W:
         return "V%d" % x.i
     if t is bool or t is int:
         return repr(x)
@@ -58,7 +58,7 @@ class V(object):
         LOG.append("V%d.%s(%s)" % (self.i, name, args))
         n = NID[0]
         NID[0] = n + 1
-        return V(n, self.t)
+        return type(self)(n, self.t)
 
     def __getitem__(self, k):
         return self._p("getitem", rp(k))
@@ -114,6 +114,26 @@ class V(object):
         return iter((V(n, True), V(n + 1, True)))
 
 
+class W(V):
+    """equality-aware logging object (operands of membership tests over displays): == is logged as an unordered
+    pair (the object with the smaller id first, objects before numbers) and answers 'both operands are falsy';
+    the hash is consistent with it (falsy objects hash like 0 / False)"""
+    __slots__ = ()
+
+    def __eq__(self, o):
+        if isinstance(o, V):
+            a, b = (self, o) if self.i < o.i else (o, self)
+            falsy = not o.t
+        else:
+            a, b = self, o
+            falsy = (type(o) is int or type(o) is bool) and o == 0
+        LOG.append("V%d.eq(%s)" % (a.i, rp(b)))
+        return (not self.t) and falsy
+
+    def __hash__(self):
+        return hash(("W", self.i)) if self.t else 0
+
+
 def _leaf(k):
     LOG.append("L%d" % k)
     o = OUT[k]
@@ -124,6 +144,10 @@ def _leaf(k):
 
 def L(k):
     return V(k, _leaf(k))
+
+
+def LW(k):
+    return W(k, _leaf(k))
 
 
 def LIv(k):
@@ -165,7 +189,7 @@ NORES = _NoRes()
 
 MOD_HEADER = '''# cython: language_level=3
 import cython
-from c20rt import L, LIv, LS, LD, NORES
+from c20rt import L, LW, LIv, LS, LD, NORES
 
 
 @cython.cfunc
@@ -178,16 +202,16 @@ def LI(k: cython.int) -> cython.int:
 
 def leaf_kind(kind, path, typing):
     """spec: ResolveKind"""
-    if kind != "v":
+    if kind not in ("v", "w"):
         return "o" if kind == "c" else kind
-    if typing == "O":
-        return "o"
-    if typing == "I":
+    if typing == "I" or (typing == "M" and path % 2 == 1):
         return "i"
-    return "i" if path % 2 == 1 else "o"
+    return "o" if kind == "v" else "q"
 
 
-_LEAF_FN = {"o": "L", "i": "LI", "s": "LS", "d": "LD"}
+_LEAF_FN = {"o": "L", "q": "LW", "i": "LI", "s": "LS", "d": "LD"}
+MEMBER = ("inlit", "notinlit")
+_DISPLAY = {"tuple": "(%s)", "list": "[%s]", "set": "{%s}"}
 
 
 def expr(e, p, ty, depth=0):
@@ -220,6 +244,9 @@ def expr(e, p, ty, depth=0):
         return "(%s in %s)" % (ch(1), ch(2))
     if t == "notin":
         return "(%s not in %s)" % (ch(1), ch(2))
+    if t in MEMBER:
+        els = ", ".join(ch(j) for j in range(2, len(a) + 1)) + ("," if e["k"] == "tuple" and len(a) == 2 else "")
+        return "(%s %s %s)" % (ch(1), "in" if t == "inlit" else "not in", _DISPLAY[e["k"]] % els)
     if t == "and":
         return "(%s and %s)" % (ch(1), ch(2))
     if t == "or":
@@ -315,7 +342,7 @@ def leaf_paths(e, p=0):
 
 def forms(e, acc=None):
     acc = set() if acc is None else acc
-    acc.add(e["t"] if e["t"] != "call" else "call:" + "".join(e["sig"]))
+    acc.add("call:" + "".join(e["sig"]) if e["t"] == "call" else e["t"] + ":" + e["k"] if e["t"] in MEMBER else e["t"])
     for c in e["a"]:
         forms(c, acc)
     return acc
@@ -334,7 +361,7 @@ def ctype(e, p, ty):
 
     if t == "L":
         return "int" if leaf_kind(e["k"], p, ty) == "i" else "obj"
-    if t in ("not", "in", "notin"):
+    if t in ("not", "in", "notin") + MEMBER:
         return "bint"
     if t in ("lt", "lt3"):
         return "bint" if all(ct(j) != "obj" for j in range(1, len(a) + 1)) else "obj"
@@ -375,8 +402,21 @@ def descriptor(ast, ty, exc):
     d["bint_index"] = bool(bi)
     if bi:
         d["construct"] = bi[0][0]
-        d["index_expr_kind"] = {"lt": "compare", "lt3": "compare", "notin": "in"}.get(bi[0][1], bi[0][1])
+        d["index_expr_kind"] = {"lt": "compare", "lt3": "compare", "notin": "in", "inlit": "in", "notinlit": "in"}.get(bi[0][1], bi[0][1])
+    mem = members(ast)
+    if mem:
+        d["member_display"] = "+".join(sorted({m["k"] for m in mem}))
     return d
+
+
+def members(e, acc=None):
+    """the membership tests over displays in the case"""
+    acc = [] if acc is None else acc
+    if e["t"] in MEMBER:
+        acc.append(e)
+    for c in e["a"]:
+        members(c, acc)
+    return acc
 
 
 # --------------------------------------------------------------------------
